@@ -110,6 +110,7 @@ def rand_case(rng, n_files=None):
     return {"name": rng.choice(["dep-1", "my.dep", "d_2", "Dep", "dep-1", "my lib", "d\u00e9p", "a+b", "at@sign,x"]), "version": rng.choice(["1.0", "2.10.3", "0.1", "1.0+build.5", "1!2.0"]),
             "scripts": scripts, "sheets": sheets, "source_kind": rng.choice(["abs", "abs", "abs", "rel", "rel", "pkg", "pkg", "pkg_libtest", "url", "url_slash", "none", "url_root", "url_protocol_relative", "url_slashes", "url_relative", "url_dot"]),
             "all_files": rng.random() < 0.25, "libdir": rng.choice(["lib", "lib", None, "a/b", "lib x"]), "include_version": rng.random() < 0.6,
+            **({"page_subdir": rng.choice(["pages", "posts/2024", "p q"]), "libdir": rng.choice(["../lib", "../site_libs", "lib", "./lib"])} if rng.random() < 0.2 else {}),
             "prepopulate": rng.random() < 0.5, "prepopulate_same_names": rng.random() < 0.5, "copied_before": rng.random() < 0.4, "positional_args": rng.random() < 0.4,
             "via": rng.choice(["document", "tag", "list", "copy_to"]), "missing": []}
 
@@ -229,7 +230,10 @@ def _run_case(ctx, case, scratch, dep, srcdir, scripts, sheets, wit):
     out = scratch.dir("out")
     libdir, iv = case["libdir"], case["include_version"]
     depdir = urls.dep_dir(case["name"], case["version"], iv)
-    destdir = os.path.join(out, libdir) if libdir else out
+    # the page may sit in a sub-directory of the site, with the library directory given relative to the PAGE ("../lib")
+    page_dir = os.path.join(out, case["page_subdir"]) if case.get("page_subdir") else out
+    os.makedirs(page_dir, exist_ok=True)
+    destdir = os.path.normpath(os.path.join(page_dir, libdir)) if libdir else page_dir
     target = os.path.join(destdir, depdir)
     if case["prepopulate"]:
         os.makedirs(os.path.join(target, "old", "nested"), exist_ok=True)
@@ -257,7 +261,8 @@ def _run_case(ctx, case, scratch, dep, srcdir, scripts, sheets, wit):
             f.write("keep")
     src_before = snapshot(srcdir) if local and "hv-c12" in srcdir else None
     dest_before = snapshot(out)
-    file = os.path.join(out, "index.html")
+    file = os.path.join(page_dir, "index.html")
+    page_rel = os.path.relpath(file, out)
     via = case["via"]
     exc = None
     ret = None
@@ -303,7 +308,7 @@ def _run_case(ctx, case, scratch, dep, srcdir, scripts, sheets, wit):
     # ---- URL-sourced and source-less dependencies copy nothing
     if not local:
         mut = [e for e in events if not (via != "copy_to" and e == ("open-for-write", file))]
-        if mut or {k: v for k, v in after.items() if k != "index.html"} != dest_before:
+        if mut or {k: v for k, v in after.items() if k != page_rel} != dest_before:
             ctx.violation("non-local-dependency-copied", "a URL-sourced / source-less dependency caused file-system changes", dict(wit, events=mut[:10]))
             return False
     else:
@@ -379,7 +384,7 @@ def _run_case(ctx, case, scratch, dep, srcdir, scripts, sheets, wit):
                 ctx.violation("url-form", "URL %r, expected %r" % (u, exp), wit)
                 return False
             continue
-        p = os.path.normpath(os.path.join(out, urls.unquote(u)))
+        p = os.path.normpath(os.path.join(page_dir, urls.unquote(u)))
         if not os.path.isfile(p):
             ctx.violation("url-names-no-file", "URL %r resolves to %r which is not a regular file" % (u, os.path.relpath(p, out)), wit)
             return False
